@@ -9,6 +9,7 @@ import (
 	"fmt"
 	"strings"
 	"sync"
+	"time"
 
 	"github.com/elementsproject/peerswap/swap"
 )
@@ -256,6 +257,15 @@ func (f *lnFacade) RebalancePayment(payreq string, channel string, maxTotalCLTVD
 	if err != nil {
 		return "", err
 	}
+	// Backstop: the retry loop normally ends after 12 attempts through the height lookup (chain.go). Code that no
+	// longer looks the height up inside the loop is ended by the loop's own (compressed) time budget instead.
+	f.w().mu.Lock()
+	attempts := f.w().gateOcc["ln.payclaim"]
+	f.w().mu.Unlock()
+	if attempts > 14 {
+		time.Sleep(400 * time.Millisecond)
+		return "", errors.New("sim: payment retry budget exhausted")
+	}
 	f.l.mu.Lock()
 	p := f.l.pay(inv.Hash)
 	known := f.l.Invoices[inv.Hash]
@@ -451,5 +461,5 @@ func u64(v uint64) any {
 	if v <= 2000000000 {
 		return v
 	}
-	return fmt.Sprintf("%d", v)
+	return uint64(2000000001) // "beyond 2*10^9": TLC integers are 32-bit; the observer treats this value as a class
 }
